@@ -439,14 +439,10 @@ fn parse_json_event(input: &[u8], output: &mut [u8]) -> Result<(usize, usize), E
         // Move to the start of the field name
         verify_char(input, b'"', &mut inpos)?;
 
-        // No matter which field is next, we need at least 7 bytes for the smallest
-        // field and value: kind":1
-        // This allows us to skip length tests below that are shorter than inpos+7
-        if inpos + 7 > input.len() {
-            return Err(InnerError::JsonBadEvent("Too Short or Missing Fields", inpos).into());
-        }
+        // (the field name may be an unknown one that is shorter than any of ours)
+        let rest = &input[inpos..];
 
-        if &input[inpos..inpos + 3] == b"id\"" {
+        if rest.starts_with(b"id\"") {
             if complete & HAVE_ID == HAVE_ID {
                 return Err(InnerError::JsonBadEvent("Duplicate id field", inpos).into());
             }
@@ -454,7 +450,7 @@ fn parse_json_event(input: &[u8], output: &mut [u8]) -> Result<(usize, usize), E
             eat_colon_with_whitespace(input, &mut inpos)?;
             read_id(input, &mut inpos, &mut output[16..48])?;
             complete |= HAVE_ID;
-        } else if &input[inpos..inpos + 4] == b"sig\"" {
+        } else if rest.starts_with(b"sig\"") {
             if complete & HAVE_SIG == HAVE_SIG {
                 return Err(InnerError::JsonBadEvent("Duplicate sig field", inpos).into());
             }
@@ -462,7 +458,7 @@ fn parse_json_event(input: &[u8], output: &mut [u8]) -> Result<(usize, usize), E
             eat_colon_with_whitespace(input, &mut inpos)?;
             read_sig(input, &mut inpos, output)?;
             complete |= HAVE_SIG;
-        } else if &input[inpos..inpos + 5] == b"kind\"" {
+        } else if rest.starts_with(b"kind\"") {
             if complete & HAVE_KIND == HAVE_KIND {
                 return Err(InnerError::JsonBadEvent("Duplicate kind field", inpos).into());
             }
@@ -471,7 +467,7 @@ fn parse_json_event(input: &[u8], output: &mut [u8]) -> Result<(usize, usize), E
             let kind = read_kind(input, &mut inpos)?;
             output[4..6].copy_from_slice(kind.to_ne_bytes().as_slice());
             complete |= HAVE_KIND;
-        } else if &input[inpos..inpos + 5] == b"tags\"" {
+        } else if rest.starts_with(b"tags\"") {
             if complete & HAVE_TAGS == HAVE_TAGS {
                 return Err(InnerError::JsonBadEvent("Duplicate tags field", inpos).into());
             }
@@ -485,7 +481,7 @@ fn parse_json_event(input: &[u8], output: &mut [u8]) -> Result<(usize, usize), E
                 read_content(input, &mut content_input_start, output, 144 + tags_size)?;
                 complete |= HAVE_CONTENT;
             }
-        } else if &input[inpos..inpos + 7] == b"pubkey\"" {
+        } else if rest.starts_with(b"pubkey\"") {
             if complete & HAVE_PUBKEY == HAVE_PUBKEY {
                 return Err(InnerError::JsonBadEvent("Duplicate pubkey field", inpos).into());
             }
@@ -493,7 +489,7 @@ fn parse_json_event(input: &[u8], output: &mut [u8]) -> Result<(usize, usize), E
             eat_colon_with_whitespace(input, &mut inpos)?;
             read_pubkey(input, &mut inpos, &mut output[48..80])?;
             complete |= HAVE_PUBKEY;
-        } else if inpos + 8 <= input.len() && &input[inpos..inpos + 8] == b"content\"" {
+        } else if rest.starts_with(b"content\"") {
             if complete & HAVE_CONTENT == HAVE_CONTENT {
                 return Err(InnerError::JsonBadEvent("Duplicate pubkey field", inpos).into());
             }
@@ -511,7 +507,7 @@ fn parse_json_event(input: &[u8], output: &mut [u8]) -> Result<(usize, usize), E
                 read_content(input, &mut inpos, output, 144 + tags_size)?;
                 complete |= HAVE_CONTENT;
             }
-        } else if inpos + 11 <= input.len() && &input[inpos..inpos + 11] == b"created_at\"" {
+        } else if rest.starts_with(b"created_at\"") {
             if complete & HAVE_CREATED_AT == HAVE_CREATED_AT {
                 return Err(InnerError::JsonBadEvent("Duplicate created_at field", inpos).into());
             }
@@ -521,7 +517,8 @@ fn parse_json_event(input: &[u8], output: &mut [u8]) -> Result<(usize, usize), E
             output[8..16].copy_from_slice(u.to_ne_bytes().as_slice());
             complete |= HAVE_CREATED_AT;
         } else {
-            burn_key_and_value(input, &mut inpos)?;
+            // an unknown field: skip it (we are already past its opening quote)
+            burn_rest_of_key_and_value(input, &mut inpos)?;
         }
 
         // get past the comma, or detect the close brace and exit
